@@ -197,6 +197,12 @@ def check_intersect(case, ctx):
         require(all(htmtri.valid_id(v, depth) for v in lst), "intersect (%s) returns ids that are not "
                 "depth-%d ids: %r", name, depth, [v for v in lst if not htmtri.valid_id(v, depth)][:5])
     require(np.array_equal(inc, inc2), "intersect() default differs from inclusive=True")
+    # the flag is a truth value: 1 / numpy.True_ mean inclusive, 0 / numpy.False_ mean full
+    for flag, same_as, nm in ((1, inc2, "inclusive=1"), (np.True_, inc2, "inclusive=numpy.True_"),
+                              (0, full, "inclusive=0"), (np.False_, full, "inclusive=numpy.False_")):
+        got = must(h.intersect, c[0], c[1], r, inclusive=flag)
+        require(np.array_equal(got, same_as), "intersect(%s) returns %d triangles, inclusive=%s returns %d", nm,
+                np.size(got), bool(flag), same_as.size)
     sinc, sfull = set(inc.tolist()), set(full.tolist())
     require(sfull <= sinc, "fully-inside triangles missing from the inclusive list: %r",
             sorted(sfull - sinc)[:5])
